@@ -7,7 +7,7 @@ ids = sys.argv[1:] or sorted(d.split('/')[-2] for d in glob.glob('seeded/*/meta.
 res = []
 for sid in ids:
     meta = json.load(open('seeded/%s/meta.json' % sid))
-    if meta.get('status') in ('dropped', 'neutralised'):
+    if meta.get('status') in ('dropped', 'neutralised', 'outside-property'):
         continue
     m = re.search(r'(C\d\d) quick', meta.get('detected_by', ''))
     prop = m.group(1) if m else meta['breaks_property']
